@@ -82,7 +82,7 @@ inline int vhMain(int argc, char** argv) {
         } catch (...) {
             out = "!exc:" + vhHex("unknown");
         }
-        std::cout << out << '\n';
+        std::cout << out << '\n' << std::flush;
     }
     return 0;
 }
